@@ -170,7 +170,7 @@ class C05(HistoryCampaign):
         "calc_styles": ["caching", "stateless"],
         "scales": ["moderate", "ideal"], "constraints": 0.2, "arrays": 0.4, "composites": 0.45, "extended": 0.25,
         "p_force": [0.3, 0.6, 0.9], "p_veto": [0.0, 0.1, 0.3], "preselect": 0.25, "steps_max": 12,
-        "default_label": 0.3, "max_atoms": 8,
+        "default_label": 0.3, "max_atoms": 8, "wrap_exch": 0.2,
     }
     rule = ("one evaluation = one generated grand-canonical deployment (atomic / molecular template, initial "
             "labelings with gaps / shuffles / negatives, several label-bearing moves, composites with + and *, "
